@@ -35,5 +35,6 @@ impl States {
         // the diagram ends with the critical point
         r is Ok ==> r->Ok_0.states.len_pos && r->Ok_0.states.last_cp
 //@end
+
 } // verus!
 fn main() {}
